@@ -426,7 +426,26 @@ class Resolver:
                     if isinstance(n, ast.AnnAssign) and isinstance(n.target, ast.Attribute) and n.target.attr == attr:
                         return self.anno(init.module, n.annotation)
                     if isinstance(n, ast.Assign) and any(isinstance(t, ast.Attribute) and t.attr == attr for t in n.targets):
-                        return self.type_of(n.value, init)
+                        # `self._data = parent._data if parent else bytearray()`: the attribute's type in terms of itself - cut the cycle
+                        busy = self.__dict__.setdefault("_attr_busy", set())
+                        key_ = (bt[1], attr)
+                        if key_ in busy:
+                            return UNK
+                        busy.add(key_)
+                        try:
+                            t_ = self.type_of(n.value, init)
+                        finally:
+                            busy.discard(key_)
+                        if t_ == UNK and isinstance(n.value, ast.IfExp):
+                            for alt in (n.value.body, n.value.orelse):
+                                busy.add(key_)
+                                try:
+                                    t2 = self.type_of(alt, init)
+                                finally:
+                                    busy.discard(key_)
+                                if t2 != UNK:
+                                    return t2
+                        return t_
             mt = self.m.find_method(bt[1], attr)
             if mt is not None:
                 return ("method", bt, attr)
